@@ -44,11 +44,11 @@ class PlanTracker:
             head = self.regions[a[0]]
             for s in range(head, head + self.nodes[head]['size']): self.marks_s.discard(s); self.marks_f.discard(s)
             return 'clear'
-    def compare(self, dumps, cdumps, viol):
+    def compare(self, dumps, cdumps, viol, hdumps=None):
         """dumps: {region: (n, [(origin,dest,kind,id)...])} from Plan iteration; cdumps from CPlan iteration"""
         seen = {}
         for r in range(len(self.regions)):
-            for which, d in (('Plan', dumps), ('CPlan', cdumps)):
+            for which, d in (('Plan', dumps), ('CPlan', cdumps), ('const-Plan', hdumps or {})):
                 if r not in d: continue
                 n, tasks = d[r]
                 exp = self.plans[r]
